@@ -20,6 +20,7 @@ class RangeOfCellIdentifierWithConditionTokenTranslator(AbstractTranslator):
                 token.in_cell, f'lambda x: '
                                f'self._parse_date_obj(x)==self._parse_date_obj({ExpressionTokenTranslator.translate(token.condition_expression, excel, context)}) '
                                f'if self._parse_date_obj({ExpressionTokenTranslator.translate(token.condition_expression, excel, context)}) '
+                               f'and not isinstance(x, str) '
                                f'else str(x).lower()==str({ExpressionTokenTranslator.translate(token.condition_expression, excel, context)}).lower() '
                                f'if isinstance({ExpressionTokenTranslator.translate(token.condition_expression, excel, context)}, str) '
                                f'else x=={ExpressionTokenTranslator.translate(token.condition_expression, excel, context)}'
